@@ -75,6 +75,29 @@ def run(prop, level, generator, rule, assumptions=(), models=(), shards=None):
     chk.finish()
 
 
+class TimeLimit(Exception):
+    pass
+
+
+class time_limit:
+    """with time_limit(seconds): ... raises TimeLimit in the main thread when the body runs longer (SIGALRM based)"""
+    def __init__(self, seconds):
+        self.seconds = seconds
+
+    def __enter__(self):
+        import signal
+        def fire(signum, frame):
+            raise TimeLimit()
+        self.old = signal.signal(signal.SIGALRM, fire)
+        signal.setitimer(signal.ITIMER_REAL, self.seconds)
+
+    def __exit__(self, *exc):
+        import signal
+        signal.setitimer(signal.ITIMER_REAL, 0)
+        signal.signal(signal.SIGALRM, self.old)
+        return False
+
+
 def replay(path):
     rec = json.load(open(path))
     print(json.dumps(rec, default=str)[:3000])
